@@ -37,7 +37,7 @@ FailDrop(t, k) ==
 BroadcastBoth ==
   /\ mpc = "bcast"
   /\ mb' = [t \in {"M", "P", "W"} |-> IF t \in Workers /\ rx[t] THEN Append(mb[t], "abort") ELSE mb[t]]
-  /\ bc' = {} /\ mpc' = "joinP"
+  /\ bc' = {} /\ mpc' = "join"
   /\ UNCHANGED <<rx, ppc, wpc, why, fails, joined>>
 
 TEvent ==
@@ -52,7 +52,7 @@ TEvent ==
         \/ FailDrop(T(p), KindOf(E.detail)))
   \/ (Ev("main", "MainRecv") /\ MRecv /\ Head(mb["M"]) = <<E.kind, T(E.who)>>)
   \/ (Ev("main", "Broadcast") /\ BroadcastBoth)
-  \/ (Ev("main", "JoinEnd") /\ (MJoin("P", "joinP", "joinW") \/ MJoin("W", "joinW", "exit")))
+  \/ (Ev("main", "JoinEnd") /\ \E t \in Workers : MJoin(t))
 
 \* unlogged worker progress
 Silent ==
